@@ -57,8 +57,11 @@ def main():
         line = line.strip()
         if not line:
             continue
-        sc = json.loads(line)
+        msg = json.loads(line)
+        sc = msg['sc'] if 'sc' in msg and 'machines' not in msg else msg
         try:
+            for decoy in (msg.get('decoys') or []) if 'machines' not in msg else []:
+                run_once(decoy, workdir)          # different history in this interpreter; result discarded
             a = run_once(sc, workdir)
             b = run_once(sc, workdir)
             res = {'first': a, 'second': b, 'hashseed': os.environ.get('PYTHONHASHSEED')}
